@@ -74,6 +74,7 @@ INT_FIELDS = [("ia1", "int", 0), ("ia2", "int", 0), ("ia3", "int", 0),
 REAL_SCALARS = ["ra", "rb", "rc"]
 INT_SCALARS = ["ka", "kb"]
 RED_SCALARS = ["s1", "s2", "s3", "s4"]
+ALL_FIELDS = [f[0] for f in REAL_FIELDS + INT_FIELDS]
 
 
 def _wrap(val):
@@ -101,6 +102,8 @@ def invoke_cases(draw, forced, rot):
               for g in (0, 1)]
     builtins = []
     used_fields = {}            # name -> (type, group)
+    patterns = {}               # name -> initial data pattern
+    scal_hint = {}              # variable -> preferred value
     field_cons = {}             # name -> set of constraints
     scal_cons = {}              # name -> set of constraints
     reductions = []             # reduction scalars written so far
@@ -109,8 +112,12 @@ def invoke_cases(draw, forced, rot):
         group = 1 if draw(st.integers(0, 3)) == 3 else 0
         taken = set()
         args = []
+        literal_at = None
+        variable_at = None
+        last_field = None
         for aidx, (_, typ, acc) in enumerate(sp.args):
             cons = sp.domain.get(aidx)
+            soft = {"mid"} if ("max_" in name or "min_" in name) else set()
             if typ in ("rf", "if"):
                 pool = [f for f in (REAL_FIELDS if typ == "rf"
                                     else INT_FIELDS)
@@ -122,7 +129,14 @@ def invoke_cases(draw, forced, rot):
                 pool = pool[shift:] + pool[:shift]
                 fld = draw(st.sampled_from(pool))
                 taken.add(fld[0])
+                if fld[0] not in used_fields:
+                    fnum = ALL_FIELDS.index(fld[0])
+                    raw = draw(st.lists(st.sampled_from(VALUES), min_size=3,
+                                        max_size=7))
+                    patterns[fld[0]] = [_wrap(v + (fnum + 1) * i + fnum)
+                                        for i, v in enumerate(raw)]
                 used_fields[fld[0]] = (fld[1], group)
+                last_field = fld[0]
                 if cons:
                     field_cons.setdefault(fld[0], set()).add(cons)
                 args.append(fld[0])
@@ -153,24 +167,32 @@ def invoke_cases(draw, forced, rot):
                     taken.add(var)
                     if cons:
                         scal_cons.setdefault(var, set()).add(cons)
-                    scal_cons.setdefault(var, set())
+                    scal_cons.setdefault(var, set()).update(soft)
+                    variable_at = var
                     args.append(var)
                 else:
-                    cands = _candidates({cons} if cons else set())
+                    cands = _candidates(({cons} if cons else set()) | soft)
                     val = cands[(draw(st.integers(0, len(cands) - 1)) +
                                  rot + bidx) % len(cands)]
                     kinded = draw(st.booleans())
                     if cons == "nonneg":
                         # SIGN(a, X) needs a and X of the same kind
                         kinded = True
+                    literal_at = (len(args), typ, kinded)
                     args.append(_literal(val, typ, kinded))
+        if literal_at and ("max_" in name or "min_" in name):
+            # a bound inside the range of X, so that MAX/MIN changes DoFs
+            pat = sorted(patterns[last_field])
+            args[literal_at[0]] = _literal(pat[len(pat) // 2], literal_at[1],
+                                           literal_at[2])
+        elif variable_at and ("max_" in name or "min_" in name):
+            pat = sorted(patterns[last_field])
+            scal_hint.setdefault(variable_at, pat[len(pat) // 2])
         builtins.append({"name": name, "args": args})
     fields = []
-    order = [f[0] for f in REAL_FIELDS + INT_FIELDS]
-    for fnum, nam in enumerate(n for n in order if n in used_fields):
+    for fnum, nam in enumerate(n for n in ALL_FIELDS if n in used_fields):
         typ, group = used_fields[nam]
-        raw = draw(st.lists(st.sampled_from(VALUES), min_size=3, max_size=7))
-        pat = [_wrap(v + (fnum + 1) * i + fnum) for i, v in enumerate(raw)]
+        pat = patterns[nam]
         if "nonzero" in field_cons.get(nam, ()):
             pat = [v if v else 1 + fnum % 6 for v in pat]
         fields.append({"name": nam, "type": typ, "space": spaces[group],
@@ -181,6 +203,9 @@ def invoke_cases(draw, forced, rot):
             cands = _candidates(scal_cons[var])
             val = cands[(draw(st.integers(0, len(cands) - 1)) + snum + rot)
                         % len(cands)]
+            if var in scal_hint and scal_hint[var] in _candidates(
+                    scal_cons[var] - {"mid"}):
+                val = scal_hint[var]
             scalars.append({"name": var,
                             "type": "real" if var in REAL_SCALARS else "int",
                             "value": val})
@@ -190,9 +215,16 @@ def invoke_cases(draw, forced, rot):
             "trans": trans}
 
 
+MID_VALUES = [3, 1, -1, 0, 2, -2, 4, -3, 5, -4]   # inside the data range
+
+
 def _candidates(cons):
     out = []
-    for val in VALUES:
+    if "exponent" in cons:
+        # 2 and 3 twice: x**1 is the identity, x**0 a constant
+        return ([2, 3, 0, 3, 2, 1] if "nonzero" not in cons
+                else [2, 3, 3, 2, 1])
+    for val in (MID_VALUES if "mid" in cons else VALUES):
         if "nonzero" in cons and val == 0:
             continue
         if "nonneg" in cons and val < 0:
